@@ -14,11 +14,17 @@ REST = ('re', '[ab,;0-9]*')
 AUX = [('El', ('rule', None, ('seq', A, ('opt', B))))]
 
 
+NULLABLE_EL = ('opt', A)
+
+
 def static_reps(el, maxb):
     yield ('rep', el, None, None)
     for m in range(0, maxb + 1):
         for n in range(m, maxb + 1):
             yield ('rep', el, m, n)
+            # a counted repetition of an element that may match nothing (terminates: the count is bounded)
+            if el == A:
+                yield ('rep', NULLABLE_EL, m, n)
         yield ('rep', el, m, None)
     for n in range(0, maxb + 1):
         yield ('rep', el, None, n)
@@ -37,6 +43,13 @@ def dynamic_reps(el):
         # class field
         yield ('field', ('ref', 'K'),
                [('K', ('class', None, [('k', False, DIGIT), ('xs', False, rep)]))], 1)
+        # the enclosing context lies INSIDE the binder (next to the repetition, in the same body)
+        for cn, ctx in (('choice', ('choice', rep, ('str', 'ab'))), ('choice2', ('choice', rep, ('str', 'aab'), ('str', 'a'))),
+                        ('star', ('seq', ('star', ('seq', rep, ('str', ';'))), ('re', '[ab;]*'))),
+                        ('opt', ('seq', ('opt', rep), ('re', '[ab]*')))):
+            yield ('let-inner-' + cn, ('let', 'k', DIGIT, ctx), [], 1)
+            yield ('param-inner-' + cn, ('let', 'n', DIGIT, ('call', 'T', [('ref', 'n')], [])), [('T', ('rule', ['k'], ctx))], 1)
+            yield ('pyarg-inner-' + cn, ('call', 'T', [('py', '2')], []), [('T', ('rule', ['k'], ctx))], 0)
     rep = ('rep', el, 'j', 'k')
     yield ('let2', ('let', 'j', DIGIT, ('let', 'k', DIGIT, rep)), [], 2)
     # bound given as inline Python over a bound name (also expressions of low precedence)
@@ -79,6 +92,9 @@ def contexts(x):
     yield 'expect', ('right', ('expect', x), REST)
     yield 'expectnot', ('right', ('expectnot', x), REST)
     yield 'star', ('star', ('seq', x, ('str', ';')))
+    # directly as a lookahead alternative / repetition element (a failed lookahead leaves no trace either)
+    yield 'expect-choice', ('choice', ('expect', x), ('str', 'ab'), ('str', 'a,'))
+    yield 'expect-star', ('seq', ('star', ('seq', ('expect', x), ('re', '[ab]'))), REST)
 
 
 def universe(tier):
@@ -95,9 +111,9 @@ def universe(tier):
             for cn, ctx in contexts(core):
                 yield ('sep/' + cn, ctx, [], inp, None)
         for src, core, extra, ndig in dynamic_reps(el):
-            dinp = 'D%d:%s' % (ndig, '4' if tier == 'quick' else '5')
+            dinp = ('D%d:%s' % (ndig, '4' if tier == 'quick' else '5')) if ndig else inp
             for cn, ctx in contexts(core):
-                if cn == 'star':
+                if cn in ('star', 'expect-star'):
                     continue
                 yield ('dyn-%s/%s' % (src, cn), ctx, extra, dinp, None)
 
@@ -131,7 +147,7 @@ def run(tier, seed):
     chk = Check('C03', tier, seed)
     chk.rule = ('4 element kinds x {all static bounds 0<=m<=n<=3 and 9 multi-digit bound pairs in operator and constructor spelling, '
                 'data-dependent bounds from let / template parameter / class field / inline Python, '
-                'all 12 Sep option vectors x 5 separators (two of them nullable)} x 8 enclosing contexts x all inputs over '
+                'all 12 Sep option vectors x 5 separators (two of them nullable)} x 10 enclosing contexts x all inputs over '
                 '{a,b,",",";"} up to the length bound (digit prefixes 0..3 for data-dependent bounds); '
                 'non-trivial = the model run needed a restore (bound reached with input left, trailing '
                 'separator left unconsumed, list failed after consuming)')
